@@ -213,11 +213,17 @@ def run(rep, tier):
         rep.coverage['cmp_outcomes'] = cmp_spec(rep, mod, 'C02(e)')
         rep.coverage['events'] = cnt
         rep.coverage['decoder_integer_table'] = {str(w): [[hex(a), hex(b)] for a, b in T.inter_set(pi[w]['accepted'], T.representable(w))] for w in pi}
+        # ---------- (f) verify's verdict on bounded token sequences (extracted machine vs grammar recogniser)
+        from props import c02m
+        lib2, _ = sc.lib_ir('c02m', defs=('BINSON_PARSER_WITH_PRINT',))
+        c02m.lang_clause(rep, irload.load(lib2), tier)
     rep.coverage.update({
         'rule': '(a) per first byte 0x00..0xff: kind, bytes consumed and error of the decoder equal the grammar table; (b) accepted integer/length sets '
-                'per width equal the shortest-form sets; (c) counters incremented only under their limit guards, depth errors only at the limit; (d) level zeroed before leaving',
+                'per width equal the shortest-form sets; (c) counters incremented only under their limit guards, depth errors only at the limit; (d) level zeroed before leaving; '
+                '(e) ordering rule and functional specification of the name comparison; (f) verdict of the extracted verify machine == grammar recogniser on every token sequence up to the bound',
         'trusted_base': ['clang-14 IR', 'engine/absint*.py', 'spec/tokens.json'],
         'explanation': 'four necessary conditions of the accepted language, each visible in the code; NOT language equivalence',
         'exhaustive': True,
     })
-    rep.assumptions += ['NOT decided: acceptance as a whole (ordering, alternation, END matching, trailing bytes over all byte strings); value assembly of integers']
+    rep.assumptions += ['acceptance as a whole (ordering, alternation, END matching, trailing bytes, depth limit and its error code) is decided for token sequences up to the stated '
+                        'bound only, with token-internal well-formedness delegated to clauses (a) and (b); NOT decided beyond the bound']
